@@ -52,49 +52,50 @@ var stubs map[string]stubFn
 
 func init() {
 	stubs = map[string]stubFn{
-		"(*sync.Mutex).Lock":        noop("mutex: no effect on verified state (mutual exclusion trusted)"),
-		"(*sync.Mutex).Unlock":      noop("mutex: no effect on verified state"),
-		"(*sync.RWMutex).Lock":      noop("mutex"),
-		"(*sync.RWMutex).Unlock":    noop("mutex"),
-		"(*sync.RWMutex).RLock":     noop("mutex"),
-		"(*sync.RWMutex).RUnlock":   noop("mutex"),
-		"(*sync.WaitGroup).Add":     noop("waitgroup"),
-		"(*sync.WaitGroup).Done":    noop("waitgroup"),
-		"(*sync.WaitGroup).Wait":    noop("waitgroup: returns"),
-		"runtime.Gosched":           noop("yield"),
-		"runtime.KeepAlive":         noop("keepalive"),
-		"fmt.Errorf":                nonNilResult("returns a non-nil error, no effect"),
-		"errors.New":                nonNilResult("returns a non-nil error, no effect"),
-		"fmt.Sprintf":               noop("pure"),
-		"fmt.Println":               noop("no effect on verified state"),
-		"strconv.Itoa":              noop("pure"),
-		"strings.Contains":          noop("pure"),
-		"time.Now":                  noop("pure"),
-		"time.Until":                noop("pure"),
-		"(time.Time).IsZero":        noop("pure"),
-		"(time.Time).Sub":           noop("pure"),
-		"(time.Duration).Seconds":   noop("pure"),
-		"time.NewTimer":             nonNilResult("returns a non-nil timer"),
-		"(*time.Timer).Stop":        noop("timer"),
-		"(*time.Timer).Reset":       noop("timer"),
-		"(*sync.Pool).Get":          stubPoolGet,
-		"(*sync.Pool).Put":          noop("pool put: object must not be used afterwards (not checked)"),
-		"(*sync.Once).Do":           stubOnceDo,
-		"(encoding/binary.bigEndian).Uint16":    stubBE(2, false),
-		"(encoding/binary.bigEndian).Uint32":    stubBE(4, false),
-		"(encoding/binary.bigEndian).Uint64":    stubBE(8, false),
-		"(encoding/binary.bigEndian).PutUint16": stubBE(2, true),
-		"(encoding/binary.bigEndian).PutUint32": stubBE(4, true),
-		"(encoding/binary.bigEndian).PutUint64": stubBE(8, true),
-		"golang.org/x/sys/unix.Read":            stubRead,
-		"golang.org/x/sys/unix.Write":           stubWrite,
-		"golang.org/x/sys/unix.Syscall":         stubSyscall,
-		"golang.org/x/sys/unix.RawSyscall":      stubSyscall,
-		"golang.org/x/sys/unix.Mmap":            stubMmap,
+		"(*sync.Mutex).Lock":                             noop("mutex: no effect on verified state (mutual exclusion trusted)"),
+		"(*sync.Mutex).Unlock":                           noop("mutex: no effect on verified state"),
+		"(*sync.RWMutex).Lock":                           noop("mutex"),
+		"(*sync.RWMutex).Unlock":                         noop("mutex"),
+		"(*sync.RWMutex).RLock":                          noop("mutex"),
+		"(*sync.RWMutex).RUnlock":                        noop("mutex"),
+		"(*sync.WaitGroup).Add":                          noop("waitgroup"),
+		"(*sync.WaitGroup).Done":                         noop("waitgroup"),
+		"(*sync.WaitGroup).Wait":                         noop("waitgroup: returns"),
+		"runtime.Gosched":                                noop("yield"),
+		"runtime.KeepAlive":                              noop("keepalive"),
+		"fmt.Errorf":                                     nonNilResult("returns a non-nil error, no effect"),
+		"errors.New":                                     nonNilResult("returns a non-nil error, no effect"),
+		"fmt.Sprintf":                                    noop("pure"),
+		"fmt.Println":                                    noop("no effect on verified state"),
+		"strconv.Itoa":                                   noop("pure"),
+		"strings.Contains":                               noop("pure"),
+		"time.Now":                                       noop("pure"),
+		"time.Until":                                     noop("pure"),
+		"(time.Time).IsZero":                             noop("pure"),
+		"(time.Time).Sub":                                noop("pure"),
+		"(time.Duration).Seconds":                        noop("pure"),
+		"time.NewTimer":                                  nonNilResult("returns a non-nil timer"),
+		"(*time.Timer).Stop":                             noop("timer"),
+		"(*time.Timer).Reset":                            noop("timer"),
+		"(*sync.Pool).Get":                               stubPoolGet,
+		"(*sync.Pool).Put":                               noop("pool put: object must not be used afterwards (not checked)"),
+		"(*sync.Once).Do":                                stubOnceDo,
+		"(encoding/binary.bigEndian).Uint16":             stubBE(2, false),
+		"(encoding/binary.bigEndian).Uint32":             stubBE(4, false),
+		"(encoding/binary.bigEndian).Uint64":             stubBE(8, false),
+		"(encoding/binary.bigEndian).PutUint16":          stubBE(2, true),
+		"(encoding/binary.bigEndian).PutUint32":          stubBE(4, true),
+		"(encoding/binary.bigEndian).PutUint64":          stubBE(8, true),
+		"golang.org/x/sys/unix.Read":                     stubRead,
+		"golang.org/x/sys/unix.Write":                    stubWrite,
+		"golang.org/x/sys/unix.Syscall":                  stubSyscall,
+		"golang.org/x/sys/unix.RawSyscall":               stubSyscall,
+		"golang.org/x/sys/unix.Mmap":                     stubMmap,
 		"github.com/bytedance/gopkg/lang/dirtmake.Bytes": stubDirtmake,
 		"github.com/bytedance/gopkg/util/gopool.Go":      stubSpawn,
 		"time.AfterFunc":                                 stubSpawn,
 		"sort.Sort":                                      stubSort,
+		"golang.org/x/sys/unix.CmsgSpace":                stubSmallNonNeg,
 	}
 }
 
@@ -276,4 +277,11 @@ func stubAtomic(fr *Frame, in ssa.Instruction, f *ssa.Function, cc *ssa.CallComm
 	}
 	c.note("atomic operation " + name + " abstracted")
 	return fr.freshResults(f.Signature)
+}
+
+func stubSmallNonNeg(fr *Frame, in ssa.Instruction, f *ssa.Function, cc *ssa.CallCommon, args []Term) []Term {
+	used(fr, f, "returns a small non-negative int (0 <= r <= 2^20)")
+	r := fr.c().fresh("small", "Int")
+	fr.c().assume(and(le("0", r), le(r, "1048576")))
+	return []Term{r}
 }
